@@ -248,11 +248,11 @@ macro_rules! grammar_int_body {
 
 /// C11 on the integer parser under a separator format: complete Ok(v) <=> partial Ok((v, len)); partial Ok((v, n)), n > 0 =>
 /// complete(prefix n) == Ok(v)
-pub fn cmp_sep_partial_complete_int<const F: u128>(s: &[u8]) -> Result<(), &'static str> {
+pub fn cmp_sep_partial_complete_int_t<T: lexical_parse_integer::FromLexicalWithOptions<Options = lexical_parse_integer::Options> + PartialEq + Copy, const F: u128>(s: &[u8]) -> Result<(), &'static str> {
     use lexical_parse_integer::{FromLexicalWithOptions, Options as IOptions};
     let opts = IOptions::new();
-    let rc = u64::from_lexical_with_options::<F>(s, &opts);
-    let rp = u64::from_lexical_partial_with_options::<F>(s, &opts);
+    let rc = T::from_lexical_with_options::<F>(s, &opts);
+    let rp = T::from_lexical_partial_with_options::<F>(s, &opts);
     match (&rc, &rp) {
         (Ok(c), Ok((p, n))) => { if *n != s.len() || c != p { return Err("complete Ok(v) => partial Ok((v, len)) (integer)"); } },
         (Ok(_), Err(_)) => return Err("complete Ok(v) => partial Ok (integer)"),
@@ -262,7 +262,7 @@ pub fn cmp_sep_partial_complete_int<const F: u128>(s: &[u8]) -> Result<(), &'sta
     if let Ok((p, n)) = &rp {
         if *n > s.len() { return Err("count <= len"); }
         if *n > 0 {
-            match u64::from_lexical_with_options::<F>(&s[..*n], &opts) {
+            match T::from_lexical_with_options::<F>(&s[..*n], &opts) {
                 Ok(c) => if c != *p { return Err("partial Ok((v, n)) => complete(prefix n) has the same value (integer)") },
                 Err(_) => return Err("partial Ok((v, n)) => complete(prefix n) is Ok (integer)"),
             }
@@ -270,6 +270,8 @@ pub fn cmp_sep_partial_complete_int<const F: u128>(s: &[u8]) -> Result<(), &'sta
     }
     Ok(())
 }
+
+pub fn cmp_sep_partial_complete_int<const F: u128>(s: &[u8]) -> Result<(), &'static str> { cmp_sep_partial_complete_int_t::<u64, F>(s) }
 
 macro_rules! pc_int_body {
     ($F:expr, $L:expr) => {{
@@ -280,6 +282,20 @@ macro_rules! pc_int_body {
         let mut i = 0;
         while i < $L { let c = bytes[i]; assume(c == b'0' || c == b'7' || c == b'_' || c == b'x'); i += 1; }
         let r = cmp_sep_partial_complete_int::<F>(&bytes[..len]);
+        vcheck!(r.is_ok(), "integer parser: partial and complete agree under a digit-separator format");
+        cover(len == $L);
+    }};
+}
+
+macro_rules! pc_u16_body {
+    ($F:expr, $L:expr) => {{
+        const F: u128 = $F;
+        let bytes: [u8; $L] = any();
+        let len: usize = any();
+        assume(len <= $L);
+        let mut i = 0;
+        while i < $L { let c = bytes[i]; assume(c == b'0' || c == b'7' || c == b'_' || c == b'x'); i += 1; }
+        let r = cmp_sep_partial_complete_int_t::<u16, F>(&bytes[..len]);
         vcheck!(r.is_ok(), "integer parser: partial and complete agree under a digit-separator format");
         cover(len == $L);
     }};
@@ -304,15 +320,26 @@ macro_rules! grammar_body {
 }
 
 crate::harnesses! {
-    /// partial vs complete INTEGER parser, flags LTC: strings len <= 4 over {0 7 _ x}.
+    /// partial vs complete INTEGER parser (u16: no multi-digit fast path, overflow reachable), flags LTC: strings len <= 4 over {0 7 _ x}.
     /// @prop C11 C13~
     /// @feat format radix_format
-    /// @bound format F_LTC; integer inputs of length <= 4 over {0 7 _ x}
+    /// @bound format F_LTC; u16 inputs of length <= 4 over {0 7 _ x}
     /// @fn lexical-parse-integer::algorithm (complete / partial instantiations)
     /// @fn lexical-util::skip::is_ltc!
     /// @timeout 1200
     #[cfg_attr(kani, kani::unwind(8))]
-    fn sep_partial_complete_int_ltc_len4() { pc_int_body!(F_LTC, 4) }
+    fn sep_partial_complete_u16_ltc_len4() { pc_u16_body!(F_LTC, 4) }
+
+    /// partial vs complete INTEGER parser (u16: no multi-digit fast path, overflow reachable), flags LTC: strings len <= 5 over {0 7 _ x}.
+    /// @prop C11 C13~
+    /// @tier thorough
+    /// @feat format radix_format
+    /// @bound format F_LTC; u16 inputs of length <= 5 over {0 7 _ x}
+    /// @fn lexical-parse-integer::algorithm (complete / partial instantiations)
+    /// @fn lexical-util::skip::is_ltc!
+    /// @timeout 1200
+    #[cfg_attr(kani, kani::unwind(8))]
+    fn sep_partial_complete_u16_ltc() { pc_u16_body!(F_LTC, 5) }
 
     /// partial vs complete INTEGER parser, flags LTC: strings len <= 5 over {0 7 _ x}.
     /// @prop C11 C13~
@@ -325,15 +352,15 @@ crate::harnesses! {
     #[cfg_attr(kani, kani::unwind(8))]
     fn sep_partial_complete_int_ltc() { pc_int_body!(F_LTC, 5) }
 
-    /// partial vs complete INTEGER parser, flags ITC: strings len <= 4 over {0 7 _ x}.
+    /// partial vs complete INTEGER parser (u16: no multi-digit fast path, overflow reachable), flags ITC: strings len <= 5 over {0 7 _ x}.
     /// @prop C11 C13~
     /// @feat format radix_format
-    /// @bound format F_ITC; integer inputs of length <= 4 over {0 7 _ x}
+    /// @bound format F_ITC; u16 inputs of length <= 5 over {0 7 _ x}
     /// @fn lexical-parse-integer::algorithm (complete / partial instantiations)
     /// @fn lexical-util::skip::is_itc!
     /// @timeout 1200
     #[cfg_attr(kani, kani::unwind(8))]
-    fn sep_partial_complete_int_itc_len4() { pc_int_body!(F_ITC, 4) }
+    fn sep_partial_complete_u16_itc() { pc_u16_body!(F_ITC, 5) }
 
     /// partial vs complete INTEGER parser, flags ITC: strings len <= 5 over {0 7 _ x}.
     /// @prop C11 C13~
@@ -346,15 +373,16 @@ crate::harnesses! {
     #[cfg_attr(kani, kani::unwind(8))]
     fn sep_partial_complete_int_itc() { pc_int_body!(F_ITC, 5) }
 
-    /// partial vs complete INTEGER parser, flags ILC: strings len <= 4 over {0 7 _ x}.
+    /// partial vs complete INTEGER parser (u16: no multi-digit fast path, overflow reachable), flags ILC: strings len <= 5 over {0 7 _ x}.
     /// @prop C11 C13~
+    /// @tier thorough
     /// @feat format radix_format
-    /// @bound format F_ILC; integer inputs of length <= 4 over {0 7 _ x}
+    /// @bound format F_ILC; u16 inputs of length <= 5 over {0 7 _ x}
     /// @fn lexical-parse-integer::algorithm (complete / partial instantiations)
     /// @fn lexical-util::skip::is_ilc!
     /// @timeout 1200
     #[cfg_attr(kani, kani::unwind(8))]
-    fn sep_partial_complete_int_ilc_len4() { pc_int_body!(F_ILC, 4) }
+    fn sep_partial_complete_u16_ilc() { pc_u16_body!(F_ILC, 5) }
 
     /// partial vs complete INTEGER parser, flags ILC: strings len <= 5 over {0 7 _ x}.
     /// @prop C11 C13~
@@ -367,8 +395,19 @@ crate::harnesses! {
     #[cfg_attr(kani, kani::unwind(8))]
     fn sep_partial_complete_int_ilc() { pc_int_body!(F_ILC, 5) }
 
+    /// partial vs complete INTEGER parser (u16: no multi-digit fast path, overflow reachable), flags ILTC: strings len <= 5 over {0 7 _ x}.
+    /// @prop C11 C13~
+    /// @feat format radix_format
+    /// @bound format F_ALL; u16 inputs of length <= 5 over {0 7 _ x}
+    /// @fn lexical-parse-integer::algorithm (complete / partial instantiations)
+    /// @fn lexical-util::skip::is_iltc!
+    /// @timeout 1200
+    #[cfg_attr(kani, kani::unwind(8))]
+    fn sep_partial_complete_u16_iltc() { pc_u16_body!(F_ALL, 5) }
+
     /// partial vs complete INTEGER parser, flags ILTC: strings len <= 5 over {0 7 _ x}.
     /// @prop C11 C13~
+    /// @tier thorough
     /// @feat format radix_format
     /// @bound format F_ALL; integer inputs of length <= 5 over {0 7 _ x}
     /// @fn lexical-parse-integer::algorithm (complete / partial instantiations)
@@ -377,8 +416,19 @@ crate::harnesses! {
     #[cfg_attr(kani, kani::unwind(8))]
     fn sep_partial_complete_int_iltc() { pc_int_body!(F_ALL, 5) }
 
+    /// partial vs complete INTEGER parser (u16: no multi-digit fast path, overflow reachable), flags LT: strings len <= 5 over {0 7 _ x}.
+    /// @prop C11 C13~
+    /// @feat format radix_format
+    /// @bound format F_LT; u16 inputs of length <= 5 over {0 7 _ x}
+    /// @fn lexical-parse-integer::algorithm (complete / partial instantiations)
+    /// @fn lexical-util::skip::is_lt!
+    /// @timeout 1200
+    #[cfg_attr(kani, kani::unwind(8))]
+    fn sep_partial_complete_u16_lt() { pc_u16_body!(F_LT, 5) }
+
     /// partial vs complete INTEGER parser, flags LT: strings len <= 5 over {0 7 _ x}.
     /// @prop C11 C13~
+    /// @tier thorough
     /// @feat format radix_format
     /// @bound format F_LT; integer inputs of length <= 5 over {0 7 _ x}
     /// @fn lexical-parse-integer::algorithm (complete / partial instantiations)
@@ -387,15 +437,15 @@ crate::harnesses! {
     #[cfg_attr(kani, kani::unwind(8))]
     fn sep_partial_complete_int_lt() { pc_int_body!(F_LT, 5) }
 
-    /// partial vs complete INTEGER parser, flags TC: strings len <= 4 over {0 7 _ x}.
+    /// partial vs complete INTEGER parser (u16: no multi-digit fast path, overflow reachable), flags TC: strings len <= 5 over {0 7 _ x}.
     /// @prop C11 C13~
     /// @feat format radix_format
-    /// @bound format F_TC; integer inputs of length <= 4 over {0 7 _ x}
+    /// @bound format F_TC; u16 inputs of length <= 5 over {0 7 _ x}
     /// @fn lexical-parse-integer::algorithm (complete / partial instantiations)
     /// @fn lexical-util::skip::is_tc!
     /// @timeout 1200
     #[cfg_attr(kani, kani::unwind(8))]
-    fn sep_partial_complete_int_tc_len4() { pc_int_body!(F_TC, 4) }
+    fn sep_partial_complete_u16_tc() { pc_u16_body!(F_TC, 5) }
 
     /// partial vs complete INTEGER parser, flags TC: strings len <= 5 over {0 7 _ x}.
     /// @prop C11 C13~
@@ -408,8 +458,19 @@ crate::harnesses! {
     #[cfg_attr(kani, kani::unwind(8))]
     fn sep_partial_complete_int_tc() { pc_int_body!(F_TC, 5) }
 
+    /// partial vs complete INTEGER parser (u16: no multi-digit fast path, overflow reachable), flags T: strings len <= 5 over {0 7 _ x}.
+    /// @prop C11 C13~
+    /// @feat format radix_format
+    /// @bound format F_T; u16 inputs of length <= 5 over {0 7 _ x}
+    /// @fn lexical-parse-integer::algorithm (complete / partial instantiations)
+    /// @fn lexical-util::skip::is_t!
+    /// @timeout 1200
+    #[cfg_attr(kani, kani::unwind(8))]
+    fn sep_partial_complete_u16_t() { pc_u16_body!(F_T, 5) }
+
     /// partial vs complete INTEGER parser, flags T: strings len <= 5 over {0 7 _ x}.
     /// @prop C11 C13~
+    /// @tier thorough
     /// @feat format radix_format
     /// @bound format F_T; integer inputs of length <= 5 over {0 7 _ x}
     /// @fn lexical-parse-integer::algorithm (complete / partial instantiations)
@@ -418,8 +479,19 @@ crate::harnesses! {
     #[cfg_attr(kani, kani::unwind(8))]
     fn sep_partial_complete_int_t() { pc_int_body!(F_T, 5) }
 
+    /// partial vs complete INTEGER parser (u16: no multi-digit fast path, overflow reachable), flags IT: strings len <= 5 over {0 7 _ x}.
+    /// @prop C11 C13~
+    /// @feat format radix_format
+    /// @bound format F_IT; u16 inputs of length <= 5 over {0 7 _ x}
+    /// @fn lexical-parse-integer::algorithm (complete / partial instantiations)
+    /// @fn lexical-util::skip::is_it!
+    /// @timeout 1200
+    #[cfg_attr(kani, kani::unwind(8))]
+    fn sep_partial_complete_u16_it() { pc_u16_body!(F_IT, 5) }
+
     /// partial vs complete INTEGER parser, flags IT: strings len <= 5 over {0 7 _ x}.
     /// @prop C11 C13~
+    /// @tier thorough
     /// @feat format radix_format
     /// @bound format F_IT; integer inputs of length <= 5 over {0 7 _ x}
     /// @fn lexical-parse-integer::algorithm (complete / partial instantiations)
@@ -1020,6 +1092,8 @@ crate::harnesses! {
 
     /// internal separators in all components: strings len <= 3 over {0 1 9 _ . e + - a}.
     /// @prop C13 C10
+    /// @tier thorough
+    /// @mem 18
     /// @feat format radix_format
     /// @bound format F_I (internal, all components); input length <= 3 over {0 1 9 _ . e + - a}
     /// @fn lexical-util::skip::{peek, next, increment_count}[internal] via lexical-parse-float::parse::parse_number
@@ -1051,6 +1125,8 @@ crate::harnesses! {
 
     /// all separator flags (i/l/t/c, all components): strings len <= 3.
     /// @prop C13 C10
+    /// @tier thorough
+    /// @mem 18
     /// @feat format radix_format
     /// @bound format F_ALL; input length <= 3 over {0 1 9 _ . e + - a}
     /// @fn lexical-util::skip (iltc) via parse_number
